@@ -12,7 +12,7 @@
    the design model (TimeModel) checks that every RT behaviour yields the NRT observations.
 
    Times are integers in units of 1/65536 s (or beat).  Instructions are uniform records
-   [op, a, b, c, s, nk, na]:  Y a=delta | P s=child c=clock("" inherit) | S a=lat b=kind(0 num,1 None) s=tag
+   [op, a, b, c, s, nk, na]:  Y a=delta | P s=child c=clock("" inherit) a=quant b=phase | ST s=routine (stop) | S a=lat b=kind(0 num,1 None) s=tag
    nk/na nested bundle (nk 0 none,1 num,2 None) | M s=tag | T c=clock a=num b=den | E raise
    | X s=routine (pause) | Z s=routine (resume) | K a=seed s=seed name | KC c=child a=seed s=name | D (draw)
    | W s=cond (yield from cond.wait()) | G s=cond a=1/0 (set test true first / just signal)
@@ -57,10 +57,13 @@ Init0(prog) ==
 Head1(q) == q[1]
 
 (* play(child) at logical time lt from a thread whose clock is pc: quant 0, so "now" on the target clock *)
-Play(st, prog, lt, child, cname, pclock, pgen) ==
+(* next_time_on_grid: the earliest beat >= ref that is congruent to phase modulo quant (no meter changes here) *)
+OnGrid(ref, q, ph) == IF q = 0 THEN ref + ph
+                      ELSE LET r == (ref - ph) % q IN IF r = 0 THEN ref ELSE ref + (q - r)
+PlayQ(st, prog, lt, child, cname, pclock, pgen, q, ph) ==
     LET c == IF cname = "" THEN pclock ELSE cname
         m == st.clk[c]
-        p == IF IsId(c) THEN lt ELSE S2B(m, lt)
+        p == IF IsId(c) THEN lt ELSE OnGrid(S2B(m, lt), q, ph)      \* quant only means something on tempo clocks
         cur == st.rt[child] IN
     IF cur.st \notin {"init", "paused"} THEN st          \* play() of a routine that is playing or done: no-op
     ELSE [st EXCEPT !.q = Put(st.q, c, Insert(Without(st.q[c], child), [p |-> p, s |-> st.ctr, t |-> child])),
@@ -68,6 +71,7 @@ Play(st, prog, lt, child, cname, pclock, pgen) ==
                     !.rt = Put(st.rt, child, [cur EXCEPT !.st = "susp", !.clock = c,
                                                          !.gen = IF cur.st = "init" /\ cur.gen = "main" THEN pgen ELSE cur.gen]),
                     !.bad = IF ~IsId(c) /\ ~ExactS2B(m, lt) THEN "nondyadic" ELSE st.bad]
+Play(st, prog, lt, child, cname, pclock, pgen) == PlayQ(st, prog, lt, child, cname, pclock, pgen, 0, 0)
 
 (* one send; inr = inside a routine; mode decides what "immediately" and "outside" mean *)
 Send(st, mode, r, inr, lt, i) ==
@@ -121,7 +125,11 @@ Exec(st, prog, mode, r, lt, p) ==
             [s1 EXCEPT !.q = Put(s1.q, me.clock, Insert(s1.q[me.clock], [p |-> p + i.a, s |-> s1.ctr, t |-> r])),
                        !.ctr = s1.ctr + 1]
       [] i.op = "E" -> [st EXCEPT !.rt = Put(st.rt, r, [me EXCEPT !.st = "done", !.pc = Len(body) + 1])]
-      [] i.op = "P" -> Exec(Play(adv(st), prog, lt, i.s, i.c, me.clock, me.gen), prog, mode, r, lt, p)
+      [] i.op = "P" -> Exec(PlayQ(adv(st), prog, lt, i.s, i.c, me.clock, me.gen, i.a, i.b), prog, mode, r, lt, p)
+      [] i.op = "ST" ->     \* stop another routine: whatever it has queued is dropped when its turn comes
+            LET o == st.rt[i.s]
+                s1 == adv(st) IN
+            Exec([s1 EXCEPT !.rt = Put(s1.rt, i.s, [o EXCEPT !.st = "done"])], prog, mode, r, lt, p)
       [] i.op \in {"S", "M"} -> Exec(Send(adv(st), mode, r, TRUE, lt, i), prog, mode, r, lt, p)
       [] i.op = "T" -> Exec(SetTempo(adv(st), lt, i.c, i.a, i.b), prog, mode, r, lt, p)
       [] i.op = "X" ->      \* pause another routine: it stays queued but will not run when its turn comes
@@ -167,7 +175,7 @@ RECURSIVE Main(_, _, _, _)
 Main(st, prog, mode, k) ==
     IF k > Len(prog.main) THEN st
     ELSE LET i == prog.main[k] IN
-         CASE i.op = "P" -> Main(Play(st, prog, 0, i.s, i.c, "sys", "main"), prog, mode, k + 1)
+         CASE i.op = "P" -> Main(PlayQ(st, prog, 0, i.s, i.c, "sys", "main", i.a, i.b), prog, mode, k + 1)
            [] i.op \in {"S", "M"} -> Main(Send(st, mode, "main", FALSE, 0, i), prog, mode, k + 1)
            [] i.op = "U" /\ mode = "nrt" -> Main(Send(st, mode, "main", FALSE, 0, [i EXCEPT !.op = "S"]), prog, mode, k + 1)
            [] OTHER -> Main(st, prog, mode, k + 1)
